@@ -37,7 +37,19 @@ def generate(seed, tier, index):
         # co-observers at the initial state and at one visited state
         entries = [[rf.randint(0, m.ns - 1), rf.randint(0, m.nc - 1)] for _ in range(rf.randint(1, 4))]
         U = gen_us(rf)
-        k1 = ["kinetics", entries, False, U]
+        # building blocks: forward/reverse rates of one reaction in one cell, exchange rates across one face
+        parts = []
+        if m.nh and rf.chance(0.7):
+            parts.append(["r", rf.randint(0, m.nh // 2 - 1), rf.randint(0, m.nc - 1)])
+        uniq = {}
+        for (i, j, S, dist, tag) in m.faces:
+            if i != j:
+                uniq.setdefault((min(i, j), max(i, j)), []).append((i, j))
+        single = [v[0] for v in uniq.values() if len(v) == 2]   # pairs joined by exactly one face in each direction
+        if single and rf.chance(0.7):
+            i, j = rf.choice(single)
+            parts.append(["d", rf.randint(0, m.ns - 1), i, j])
+        k1 = ["kinetics", entries, False, U, None, parts]
         if m.nc == 1 and rf.chance(0.7):
             k1 = ["kinetics", "all", False, U, "dxdtf"]
         elif m.ns * m.nc <= 6 and rf.chance(0.5):
@@ -90,6 +102,30 @@ def check_kinetics(ev, op, m, phys, viol, stats, tag, masked):
                          "detail": "compute_dspeciesdt(species %d, cell %d, apply_chemostats=%s) = %r molecules/s, the rate law "
                                    "gives %r (scale %r)" % (s, i, op[2], got[s, i], f[s, i], scale[s, i])})
             return
+    if "parts" in ev and len(op) > 5 and op[5]:
+        r = m.rates(X)
+        for prt, res in zip(op[5], ev["parts"]):
+            a, b, asys, adim, bsys, bdim = res
+            if adim != [0, -1, 1] or bdim != [0, -1, 1]:
+                viol.append({"oracle": tag + ".kinetics-dimension", "detail": "rate dimension %s / %s" % (adim, bdim)})
+                return
+            fa = si.factor({"space": asys[0], "time": asys[1], "quantity": asys[2]}, si.DIM_RATE)
+            fb = si.factor({"space": bsys[0], "time": bsys[1], "quantity": bsys[2]}, si.DIM_RATE)
+            if prt[0] == "r":
+                want = (float(r[2 * prt[1], prt[2]]), float(r[2 * prt[1] + 1, prt[2]]))
+                what = "compute_reaction_rates(reaction %d, cell %d)" % (prt[1], prt[2])
+            else:
+                s_, i_, j_ = prt[1], prt[2], prt[3]
+                fo = [k for k, f in enumerate(m.faces) if f[0] == i_ and f[1] == j_][0]
+                fi = [k for k, f in enumerate(m.faces) if f[0] == j_ and f[1] == i_][0]
+                want = (float(X[s_, i_] * m.kd[s_, fo]), float(X[s_, j_] * m.kd[s_, fi]))
+                what = "compute_diffusion_rates(species %d, %d -> %d)" % (s_, i_, j_)
+            stats["kinetics_parts_checked"] = stats.get("kinetics_parts_checked", 0) + 1
+            for got, w_ in ((a * fa, want[0]), (b * fb, want[1])):
+                if abs(got - w_) > 1e-10 * max(abs(w_), abs(got)) + 1e-300:
+                    viol.append({"oracle": tag + ".kinetics-parts", "detail": "%s = (%r, %r) molecules/s, the rate law gives %r" % (
+                        what, a * fa, b * fb, want)})
+                    return
     if "dxdtf" in ev:
         fU = si.factor(U, si.DIM_RATE)
         g = np.array(ev["dxdtf"]) * fU
